@@ -370,7 +370,11 @@ func kvKeysOf(w []string) []string {
 func kvGen(ctx *Ctx, n int, redisOK bool, keys []string) []string {
 	r := ctx.Rnd
 	vals := []string{"x", "y", "-", "zz"}
-	pats := []string{"*", "a*", "?", "a?", "b", "*b", "a*b", "??", "zz*"}
+	pats := []string{"*", "a*", "?", "a?", "b", "*b", "a*b", "??", "zz*", "a", "ab", "zz/1"}
+	if len(keys) > 0 && keys[0] == "a*" {
+		// escape alphabet: keys that contain wildcard characters / a backslash, patterns with `\x` escapes
+		pats = []string{"*", "a*", "a\\*", "a\\?b", "a?b", "a\\\\b", "\\ab", "a\\b", "a\\**", "ab", "a\\*b", "?\\*"}
+	}
 	now := 0
 	nver := 0
 	exp := func() string {
@@ -523,6 +527,11 @@ func runKv(ctx *Ctx, kind string) {
 	}
 	for c := 0; c < n; c++ {
 		kvRunCase(ctx, kind, "", kvGen(ctx, ctx.Rnd.Range(5, 60), true, keys))
+	}
+	// 4b. keys with wildcard characters / a backslash in them and patterns with escapes (`\*`, `\?`, `\\`, `\a`)
+	escKeys := []string{"a*", "a?b", "a\\b", "ab"}
+	for c := 0; c < n/4; c++ {
+		kvRunCase(ctx, kind, "", kvGen(ctx, ctx.Rnd.Range(5, 40), true, escKeys))
 	}
 	if kind == "inmem" {
 		// unconstrained times/expiries (expiry == now, already expired at write, op at the expiry instant)
